@@ -54,7 +54,7 @@ func ingressModel(w *world.World, r *run.CaseResult, alt bool) (map[int]*refmode
 			}
 			match := true
 			for k, v := range sv.Selector {
-				if wl.Labels[k] != v {
+				if x, ok := wl.Labels[k]; !ok || x != v { // the key must be present (an empty value is a value)
 					match = false
 				}
 			}
@@ -268,7 +268,7 @@ func runC10(c *run.Ctx) {
 				sel := w.Services[si].Selector
 				ok := wl.Ns == w.Services[si].Ns && len(sel) > 0
 				for k, v := range sel {
-					if wl.Labels[k] != v {
+					if x, ok := wl.Labels[k]; !ok || x != v { // the key must be present (an empty value is a value)
 						ok = false
 					}
 				}
